@@ -143,6 +143,7 @@ type Sim struct {
 	Steps     int
 	Stalls    int
 	longStall bool
+	stallsOff bool
 	Yields    int64
 	tokYields int64
 	Preempts  int
@@ -300,6 +301,18 @@ func (s *Sim) Probe(name string) {
 }
 
 // Fault counts an injected fault by kind.
+// StopStalls ends the injection of the "stalled goroutine" fault for the rest of the run.
+// Worlds call it when their scripted activity is over: settled-state oracles wait fixed
+// simulated times for the system to become quiet ("once faults stop"), and a stall in
+// that phase would let those times pass while the goroutine that delivers the awaited
+// effect is still runnable. Deterministic: called at a point of the run that is itself
+// decided by the schedule, and the stall decision draws no choice once it is off.
+func (s *Sim) StopStalls() {
+	s.mu.Lock()
+	s.stallsOff = true
+	s.mu.Unlock()
+}
+
 func (s *Sim) Fault(kind string) {
 	s.mu.Lock()
 	s.Faults[kind]++
@@ -511,7 +524,7 @@ func (s *Sim) loop() {
 			// (a descheduled thread, a GC pause, a slow core).
 			// Bounded so that it cannot starve a goroutine beyond the settle bounds the
 			// oracles use: at most 12 stalls per run, at most one of them long (1.2 s).
-			if s.Cfg.StallPm > 0 && s.Stalls < 12 && s.Choice.Intn(1000) >= 1000-s.Cfg.StallPm {
+			if s.Cfg.StallPm > 0 && !s.stallsOff && s.Stalls < 12 && s.Choice.Intn(1000) >= 1000-s.Cfg.StallPm {
 				d := []time.Duration{time.Microsecond, 150 * time.Microsecond, 3 * time.Millisecond, 1200 * time.Millisecond}[s.Choice.Intn(4)]
 				if d > time.Second {
 					if s.longStall {
